@@ -564,8 +564,30 @@ func ExpandFacts(fs []Fact, depth int) []TFact {
 		if f.Kind == FCall && depth > 0 {
 			out = append(out, expandCall(tf.Call, 0, f.Bool, depth, CalleeShort(tf.Call))...)
 		}
+		if f.Kind == FNil && f.Bool && depth > 0 {
+			if c, ri := nilResultCall(f.X); c != nil {
+				out = append(out, expandNilErr(c, ri, depth, CalleeShort(c))...)
+			}
+		}
 	}
 	return out
+}
+
+// expandNilErr: `err == nil` for the error result of a module function establishes what all of its
+// success returns have in common.
+func expandNilErr(c *ssa.Call, ri int, depth int, via string) []TFact {
+	callee := Callee(c)
+	if callee == nil || callee.Blocks == nil || c.Call.IsInvoke() {
+		return nil
+	}
+	if callee.Pkg == nil || callee.Pkg.Pkg == nil || !strings.HasPrefix(callee.Pkg.Pkg.Path(), ModPath) {
+		return nil
+	}
+	facts, ok := ReturnFactsNilErr(callee, ri)
+	if !ok {
+		return nil
+	}
+	return substFacts(c, callee, facts, depth, via)
 }
 
 // CalleeShort gives "pkg.Func" / "T.M" for messages.
@@ -587,6 +609,10 @@ func expandCall(c *ssa.Call, ri int, want bool, depth int, via string) []TFact {
 	if !ok {
 		return nil
 	}
+	return substFacts(c, callee, facts, depth, via)
+}
+
+func substFacts(c *ssa.Call, callee *ssa.Function, facts []Fact, depth int, via string) []TFact {
 	sub := map[*ssa.Parameter]*Term{}
 	for i, p := range callee.Params {
 		if i < len(c.Call.Args) {
@@ -605,9 +631,17 @@ func expandCall(c *ssa.Call, ri int, want bool, depth int, via string) []TFact {
 		}
 		tf.Pos = c.Pos()
 		out = append(out, tf)
+		var inner []TFact
 		if f.Kind == FCall && depth > 1 {
 			// nested helper: expand in the callee's frame, then substitute
-			inner := expandCall(tf.Call, 0, f.Bool, depth-1, via+">"+CalleeShort(tf.Call))
+			inner = expandCall(tf.Call, 0, f.Bool, depth-1, via+">"+CalleeShort(tf.Call))
+		}
+		if f.Kind == FNil && f.Bool && depth > 1 {
+			if c2, ri2 := nilResultCall(f.X); c2 != nil {
+				inner = expandNilErr(c2, ri2, depth-1, via+">"+CalleeShort(c2))
+			}
+		}
+		{
 			for _, g := range inner {
 				if g.X != nil {
 					g.X = g.X.Subst(sub)
